@@ -51,7 +51,7 @@ PROPS = {
     'C01': _p(['story', 'story', 'mixed', 'timing', 'end'], ['C01.order', 'C01.conserve'], RULE_STEP, 6000, 400000, _STEP),
     'C02': _p(['item', 'item', 'mixed', 'script'], ['C02.order', 'C02.conserve'], RULE_STEP, 6000, 400000, _STEP),
     'C03': _p(['story', 'item', 'mixed', 'meta'], ['C03.frame'], RULE_STEP, 6000, 400000, _STEP),
-    'C04': _p(['mixed', 'story', 'item', 'meta', 'script'], ['C04.payload'], RULE_STEP, 6000, 400000, _STEP),
+    'C04': _p(['mixed', 'story', 'item', 'meta', 'script', 'collection'], ['C04.payload', 'C04.collection'], RULE_STEP, 6000, 400000, _STEP),
     'C05': _p(['story', 'item', 'mixed', 'kofn'], ['C05.atomic'], RULE_STEP, 6000, 400000, _STEP, faulty=True),
     'C06': _p(['story', 'item', 'mixed', 'kofn', 'collection'], ['C06.count', 'C06.silent', 'C06.spurious', 'C06.rest', 'C06.all-ids', 'C06.collection'], RULE_STEP, 6000, 400000, _STEP),
     'C07': _p(['end', 'end', 'mixed', 'collection'], ['C07.terminal', 'C07.terminal-changed', 'C07.never-completed', 'C07.complete',
